@@ -49,7 +49,8 @@ def run(ctx):
     # two enforcers over the same files: both have loaded, the main file (or a directory file)
     # changes, one loads first - the other must still see the change
     SHARED = []
-    for edit in (('write', 'main', 'new'), ('write', 'main', 'old'), ('empty', 'main'), ('delete', 'main'), ('write', 'd1/a', 'new'), ('delete', 'd1/a'), ('delete', 'd1/b')):
+    for edit in (('write', 'main', 'new'), ('write', 'main', 'old'), ('empty', 'main'), ('delete', 'main'), ('write', 'd1/a', 'new'), ('delete', 'd1/a'), ('delete', 'd1/b'),
+                 ('replace', 'd1/a', 'old', False), ('replace', 'd1/b', 'new', True)):
         for order in ((0, 1), (1, 0)):
             SHARED.append([('load', 0), ('load', 1), ('edit!', edit), ('load', order[0]), ('load', order[1]), ('forceload', order[0]), ('load', order[1])])
     for seq in SHARED:
@@ -94,6 +95,23 @@ def run(ctx):
         n_inter += 1
         for ei, lv in enumerate(lives):
             by_cfg.setdefault((variant, lv.enforce_new, lv.overwrite), []).append((lv.trace, k, seq, ei))
+    # every textual style of the default check strings (top-level and / or / not / grouping) under
+    # repeated recalculation: the merged check must not grow, with nothing overridden in the files
+    for variant in ('renamed', 'same', 'split', 'renamed_same'):
+        for style in range(len(lc.STYLES)):
+            for en in (False, True):
+                seq = [('load', False), ('load', True), ('load', True), ('write', 'd2/a', 'old' if variant == 'same' else 'fixed'), ('load', False),
+                       ('touch', 'd2/a'), ('load', False), ('load', True)]
+                if variant != 'same':
+                    seq = seq[:3] + [('ignored', 'd1/.hidden'), ('load', False), ('load', True)]
+                lv = lc.Live(rng, variant, en, defaults=lc.defaults_for(variant, style), via='rules')
+                try:
+                    for ev_ in seq:
+                        lv.step(ev_)
+                finally:
+                    lv.close()
+                n_inter += 1
+                by_cfg.setdefault((variant, en, True), []).append((lv.trace, 1, seq, 0))
     for (variant, en, ow), items in sorted(by_cfg.items()):
         traces = [it[0] for it in items]
         for idx, why, step in lc.judge_traces(ctx, variant, en, traces, overwrite=ow):
